@@ -15,7 +15,7 @@ RULES = {
     "R-17.1": "every access to cache state happens inside the single `with self.lock` block of a public method (or in a helper only called under it)",
     "R-17.2": "a cached value is returned only on the not-expired side of an `expiration <= now` test on that same entry",
     "R-17.3": "exactly one of hits/misses is incremented on every path through get(); hits iff a value is returned",
-    "R-17.4": "LRU: insert is dominated by the eviction loop `len(data) >= max_size`; victim is the tail; dict and ring move together",
+    "R-17.4": "LRU: insert is dominated by the eviction loop `len(data) >= max_size`; victim is the tail; dict and ring move together; every path of put() that stores the answer leaves its node linked at the front (a put is a use)",
 }
 
 CACHE_CLASSES = ["dns.resolver.CacheBase", "dns.resolver.Cache", "dns.resolver.LRUCache"]
@@ -346,6 +346,25 @@ def run(model, rep, tier):
             gate = [m.id for m in cfgg.nodes if isinstance(m.ast, ast.Expr) and src(m.ast).endswith(".link_after(self.sentinel)")]
             rep.check(cfgg.dominated_by_set(n.id, gate), "R-17.4", g.qualname, where(g, n.ast), "a hit re-links the node at the front",
                       "a hit is returned without moving the node to the front (recency lost)", stmt="hit-moves-to-front")
+    # put is a use: whatever path stores the caller's answer leaves that node at the front of the ring
+    vparam = fi.node.args.args[2].arg if len(fi.node.args.args) >= 3 else None
+    if vparam is None:
+        rep.blind("R-17.4", fi.qualname, where(fi, fi.node), "put() no longer takes (key, value)", stmt="put-moves-to-front")
+    else:
+        stores = [n for n in cfg.nodes if n.kind == "stmt" and n.ast is not None and any(
+            isinstance(x, ast.Name) and x.id == vparam and isinstance(x.ctx, ast.Load) for x in ast.walk(n.ast))]
+        rep.floor("R-17.4-put-front", len(stores), 1)
+        pgate = [m.id for m in cfg.nodes if isinstance(m.ast, ast.Expr) and src(m.ast).endswith(".link_after(self.sentinel)")]
+        seen_exit = set()
+        for st_ in stores:
+            r = cfg.reachable([st_.id], blocked=pgate)
+            if cfg.exit.id in r and not cfg.dominated_by_set(st_.id, pgate) and st_.id not in seen_exit:
+                seen_exit.add(st_.id)
+                rep.bad("R-17.4", fi.qualname, where(fi, st_.ast),
+                        f"`{src(st_.ast)}` stores the caller's answer on a path that returns without `link_after(self.sentinel)`: "
+                        "the refreshed entry keeps its old place in the ring and is evicted before entries used less recently", stmt="put-moves-to-front")
+        if not seen_exit:
+            rep.ok("R-17.4", fi.qualname, where(fi, fi.node), "every path of put() that stores the answer links its node at the front", stmt="put-moves-to-front")
     # flush(None) resets both
     fl = model.func("dns.resolver.LRUCache.flush")
     txt = src(fl.node)
@@ -438,6 +457,12 @@ WITNESSES = [
     {"id": "c17-del-without-unlink", "rule": "R-17.4", "file": "dns/resolver.py", "expect": "fires",
      "old": "            if node is not None:\n                node.unlink()\n                del self.data[node.key]\n            while",
      "new": "            if node is not None:\n                del self.data[node.key]\n            while"},
+    {"id": "c17-put-refresh-in-place", "rule": "R-17.4", "file": "dns/resolver.py", "expect": "fires",
+     "old": "            if node is not None:\n                node.unlink()\n                del self.data[node.key]\n            while",
+     "new": "            if node is not None:\n                node.value = value\n                node.hits = 0\n                return\n            while"},
+    {"id": "c17-twin-put-refresh-relinked", "rule": "R-17.4", "file": "dns/resolver.py", "expect": "silent",
+     "old": "            if node is not None:\n                node.unlink()\n                del self.data[node.key]\n            while",
+     "new": "            if node is not None:\n                node.unlink()\n                node.value = value\n                node.hits = 0\n                node.link_after(self.sentinel)\n                return\n            while"},
     {"id": "c17-twin-flush-reorder", "rule": "R-17.1", "file": "dns/resolver.py", "expect": "silent",
      "old": "                self.data = {}\n                self.next_cleaning = time.time() + self.cleaning_interval",
      "new": "                self.next_cleaning = time.time() + self.cleaning_interval\n                self.data = {}"},
